@@ -71,6 +71,7 @@ candid::define_service!(pub SvRef : { "get" : candid::func!((Nat) -> (Int) query
 
 type BV3 = BoundedVec<3, { candid::types::bounded_vec::UNBOUNDED }, { candid::types::bounded_vec::UNBOUNDED }, u64>;
 type BVT = BoundedVec<{ candid::types::bounded_vec::UNBOUNDED }, 100, { candid::types::bounded_vec::UNBOUNDED }, Vec<u8>>;
+type BVU = BoundedVec<{ candid::types::bounded_vec::UNBOUNDED }, 16, { candid::types::bounded_vec::UNBOUNDED }, u64>;
 type BVE = BoundedVec<{ candid::types::bounded_vec::UNBOUNDED }, { candid::types::bounded_vec::UNBOUNDED }, 30, Vec<u8>>;
 
 // ---------------------------------------------------------------------------------------------------------
@@ -170,11 +171,17 @@ where X: CandidType + for<'de> Deserialize<'de> + Debug + PartialEq {
         }
         // a trace of everything observable about one encode/decode, used to compare histories
         "trace" => {
+            // the OUTCOME of one decode + encode + decode: success, the abstract value, and whether the round trip returns it.
+            // (The bytes and the printed type may legitimately depend on what was derived before: a recursive type is unrolled from
+            // wherever the derivation entered it; they denote the same type.)
             let b = sx::unhex(a[0]);
-            let ty = format!("{}", X::ty());
             match decode_cfg::<X>(&b, &DecoderConfig::new()) {
-                Ok((x, _)) => { let e = candid::encode_one(&x).map(|b| sx::hex(&b)).unwrap_or("err".into()); format!("ty={} dec=ok enc={} dbg={:?}", ty, e, x) }
-                Err(_) => format!("ty={} dec=err", ty),
+                Ok((x, _)) => {
+                    let v = value_of(&x).map(|v| v.sx()).unwrap_or_else(|e| format!("reencode-failed {}", e));
+                    let rt = match candid::encode_one(&x).ok().and_then(|b2| decode_cfg::<X>(&b2, &DecoderConfig::new()).ok()) { Some((x2, _)) => x2 == x || format!("{:?}", x).contains("NaN"), None => false };
+                    format!("dec=ok roundtrip={} value={}", rt, v)
+                }
+                Err(_) => "dec=err".to_string(),
             }
         }
         // native decoding succeeds exactly when untyped decoding at X's type does, with the same abstract value
@@ -285,7 +292,10 @@ corpus! {
     "Gen<Nat,Int>" => Gen<Nat, Int>, "Gen<u8,Pair>" => Gen<u8, Pair>, "List" => List, "Tree" => Tree, "Rose" => Rose, "WithOpts" => WithOpts,
     "Wide" => Wide, "Floats" => Floats, "Refs" => Refs, "Maps" => Maps, "Nested" => Nested, "Big128" => Big128, "Bytes" => Bytes, "Res2" => Res2,
     "Boxes" => Boxes, "Mutual1" => Mutual1, "Mutual2" => Mutual2, "Vec<Shape>" => Vec<Shape>, "Opt<List>" => Option<List>, "Vec<Tree>" => Vec<Tree>,
-    "BV3" => BV3, "BVT" => BVT, "BVE" => BVE, "FnRef" => FnRef, "SvRef" => SvRef, "Vec<FnRef>" => Vec<FnRef>,
+    "Opt<Box<List>>" => Option<Box<List>>, "Vec<Opt<Box<List>>>" => Vec<Option<Box<List>>>, "Gen<Opt<Box<List>>,Tree>" => Gen<Option<Box<List>>, Tree>,
+    "Box<Tree>" => Box<Tree>, "Opt<Box<Mutual2>>" => Option<Box<Mutual2>>, "Vec<Rose>" => Vec<Rose>, "(Vec<Nat>,Int)" => (Vec<Nat>, Int),
+    "(BTreeSet<Nat>,Int,Vec<Int>,Nat)" => (BTreeSet<Nat>, Int, Vec<Int>, Nat), "(Vec<u8>,u8,Vec<u64>,i64)" => (Vec<u8>, u8, Vec<u64>, i64),
+    "BV3" => BV3, "BVT" => BVT, "BVE" => BVE, "BVU" => BVU, "FnRef" => FnRef, "SvRef" => SvRef, "Vec<FnRef>" => Vec<FnRef>,
 }
 
 /// corpus types with host limits beyond the Candid type (128-bit integers, bounded vectors, fixed-size arrays)
@@ -307,7 +317,15 @@ pub fn borrowed(name: &str, op: &str, a: &[&str]) -> Option<String> {
             (Err(e), Ok(u)) => format!("FAIL native rejects ({}) but untyped accepts {}", e, u),
         }
     }
-    if op != "p.c08.agree" && op != "p.c08.agree.empty-vec-at-bytes" && op != "p.c06.fuzz" { return None; }
+    if op == "p.c06.fuzz" {
+        let _ = match name {
+            "&[u8]" => decode_cfg::<&[u8]>(&b, &DecoderConfig::new()).map(|_| ()),
+            "&str" => decode_cfg::<&str>(&b, &DecoderConfig::new()).map(|_| ()),
+            _ => return None,
+        };
+        return Some("ok".into());
+    }
+    if op != "p.c08.agree" && op != "p.c08.agree.empty-vec-at-bytes" { return None; }
     let bytes_v = |x: &[u8]| V::Vec(x.iter().map(|b| V::NatN(8, *b as u64)).collect());
     Some(match name {
         "&[u8]" => agree::<&[u8]>(&b, &|x| bytes_v(x), <&[u8]>::ty()),
